@@ -57,9 +57,11 @@ mod verif_c16_msr {
         let top = v >> 47;
         top == 0 || top == 0x1_ffff
     }
-    /// Symbolic machine whose watched MSR cell is `idx`, prior contents symbolic.
+    /// Make `idx` the watched MSR cell of the (already symbolic) machine; its
+    /// prior contents `msr_value` stay symbolic. Returns a copy of the prior state.
+    /// (`reset_symbolic()` is called in the harness body itself so that the
+    /// playback labels of kani_run.py apply.)
     fn watch(idx: u32) -> Machine {
-        verif_hw::reset_symbolic();
         verif_hw::m().msr_index = idx;
         *verif_hw::m()
     }
@@ -167,6 +169,7 @@ mod verif_c16_msr {
     //@ obligation C16 C16.Efer_read_raw.value_and_event
     #[kani::proof]
     fn c16_efer_read_truncated_raw() {
+        verif_hw::reset_symbolic();
         let before = watch(IA32_EFER);
         let old = before.msr_value;
         kani::cover!(true, "c16_efer_read_truncated_raw: reachable");
@@ -194,6 +197,7 @@ mod verif_c16_msr {
     //@ obligation C16 C16.Efer_write_raw.stores_exactly
     #[kani::proof]
     fn c16_efer_write_raw_stores_exactly() {
+        verif_hw::reset_symbolic();
         let before = watch(IA32_EFER);
         let v: u64 = kani::any();
         kani::cover!(true, "c16_efer_write_raw_stores_exactly: reachable");
@@ -213,6 +217,7 @@ mod verif_c16_msr {
     //@ obligation C16 C16.Efer_write.preserves_unmodelled
     #[kani::proof]
     fn c16_efer_write_preserves_unmodelled() {
+        verif_hw::reset_symbolic();
         let before = watch(IA32_EFER);
         let old = before.msr_value;
         let flags = EferFlags::from_bits_retain(kani::any::<u64>() & EFER_MODELLED);
@@ -241,6 +246,7 @@ mod verif_c16_msr {
     //@ obligation C16 C16.Efer_update.read_f_write
     #[kani::proof]
     fn c16_efer_update_read_f_write() {
+        verif_hw::reset_symbolic();
         let before = watch(IA32_EFER);
         let old = before.msr_value;
         let chosen = EferFlags::from_bits_retain(kani::any::<u64>() & EFER_MODELLED);
@@ -416,6 +422,7 @@ mod verif_c16_msr {
     //@ obligation C16 C16.LStar_read.value_and_event
     #[kani::proof]
     fn c16_lstar_read_value_and_event() {
+        verif_hw::reset_symbolic();
         let before = watch(IA32_LSTAR);
         let old = before.msr_value;
         kani::assume(canonical(old));
@@ -432,6 +439,7 @@ mod verif_c16_msr {
     //@ obligation C16 C16.LStar_write.read_back
     #[kani::proof]
     fn c16_lstar_write_read_back() {
+        verif_hw::reset_symbolic();
         let before = watch(IA32_LSTAR);
         let a = any_vaddr();
         kani::cover!(true, "c16_lstar_write_read_back: reachable");
@@ -456,6 +464,7 @@ mod verif_c16_msr {
     //@ obligation C16 C16.Star_read_raw.fields
     #[kani::proof]
     fn c16_star_read_raw_fields() {
+        verif_hw::reset_symbolic();
         let before = watch(IA32_STAR);
         let old = before.msr_value;
         kani::cover!(true, "c16_star_read_raw_fields: reachable");
@@ -478,6 +487,7 @@ mod verif_c16_msr {
     //@ obligation C16 C16.Star_read.selectors
     #[kani::proof]
     fn c16_star_read_selectors() {
+        verif_hw::reset_symbolic();
         let before = watch(IA32_STAR);
         let old = before.msr_value;
         let sysret = (old >> 48) as u16;
@@ -503,6 +513,7 @@ mod verif_c16_msr {
     //@ obligation C16 C16.Star_write_raw.stores_fields
     #[kani::proof]
     fn c16_star_write_raw_stores_fields() {
+        verif_hw::reset_symbolic();
         let before = watch(IA32_STAR);
         let sysret: u16 = kani::any();
         let syscall: u16 = kani::any();
@@ -543,6 +554,7 @@ mod verif_c16_msr {
     //@ obligation C16 C16.Star_write.accepts_and_reads_back
     #[kani::proof]
     fn c16_star_write_accepts_and_reads_back() {
+        verif_hw::reset_symbolic();
         let before = watch(IA32_STAR);
         let cs_sysret = SegmentSelector(kani::any());
         let ss_sysret = SegmentSelector(kani::any());
@@ -575,6 +587,7 @@ mod verif_c16_msr {
     //@ obligation C16 C16.Star_write.rejects_without_writing
     #[kani::proof]
     fn c16_star_write_rejects_without_writing() {
+        verif_hw::reset_symbolic();
         let before = watch(IA32_STAR);
         let cs_sysret = SegmentSelector(kani::any());
         let ss_sysret = SegmentSelector(kani::any());
@@ -608,16 +621,21 @@ mod verif_c16_msr {
 
     // --------------------------------------------------------------- SFMask
 
-    /// FINDING candidate: SFMask::read is `RFlags::from_bits(raw).unwrap()`.
+    /// FINDING: SFMask::read is `RFlags::from_bits(raw).unwrap()`.
     /// The statement says a typed read returns exactly the modelled bits of the
     /// raw value for ALL prior register contents; no panic is documented.
-    /// IA32_FMASK[31:0] is freely writable, so e.g. raw == 2 (RFLAGS bit 1) is
-    /// a possible register content. This harness is the statement, unweakened.
+    /// IA32_FMASK[31:0] is freely writable (bits 63:32 are reserved and read as
+    /// zero, so they are assumed zero here to keep the counterexample one that
+    /// hardware can hold), e.g. raw == 2 (RFLAGS bit 1, which is always 1 in
+    /// RFLAGS itself) is a possible register content and makes read() panic.
+    /// This harness is the statement, not weakened further.
     //@ obligation C16 C16.SFMask_read.truncated_raw
     #[kani::proof]
     fn c16_sfmask_read_truncated_raw() {
+        verif_hw::reset_symbolic();
         let before = watch(IA32_FMASK);
         let old = before.msr_value;
+        kani::assume(old >> 32 == 0);
         kani::cover!(true, "c16_sfmask_read_truncated_raw: reachable");
         let r = SFMask::read();
         let m = verif_hw::m();
@@ -635,6 +653,7 @@ mod verif_c16_msr {
     //@ obligation C16 C16.SFMask_read.modelled_raw
     #[kani::proof]
     fn c16_sfmask_read_modelled_raw() {
+        verif_hw::reset_symbolic();
         let before = watch(IA32_FMASK);
         let old = before.msr_value;
         kani::assume(old & !RFLAGS_MODELLED == 0);
@@ -654,6 +673,7 @@ mod verif_c16_msr {
     //@ obligation C16 C16.SFMask_write.read_back
     #[kani::proof]
     fn c16_sfmask_write_read_back() {
+        verif_hw::reset_symbolic();
         let before = watch(IA32_FMASK);
         let flags = RFlags::from_bits_retain(kani::any::<u64>() & RFLAGS_MODELLED);
         kani::cover!(true, "c16_sfmask_write_read_back: reachable");
@@ -675,6 +695,7 @@ mod verif_c16_msr {
     //@ obligation C16 C16.SFMask_update.read_f_write
     #[kani::proof]
     fn c16_sfmask_update_read_f_write() {
+        verif_hw::reset_symbolic();
         let before = watch(IA32_FMASK);
         let old = before.msr_value;
         kani::assume(old & !RFLAGS_MODELLED == 0); // see c16_sfmask_read_truncated_raw
@@ -714,6 +735,7 @@ mod verif_c16_msr {
     //@ obligation C16 C16.UCet_read.decodes_register
     #[kani::proof]
     fn c16_ucet_read_decodes_register() {
+        verif_hw::reset_symbolic();
         let before = watch(IA32_U_CET);
         let old = before.msr_value;
         kani::assume(canonical(old & !0xfff));
@@ -737,6 +759,7 @@ mod verif_c16_msr {
     //@ obligation C16 C16.UCet_write.read_back
     #[kani::proof]
     fn c16_ucet_write_read_back() {
+        verif_hw::reset_symbolic();
         let before = watch(IA32_U_CET);
         let flags = CetFlags::from_bits_retain(kani::any::<u64>() & CET_MODELLED);
         let (page, page_addr) = any_page();
@@ -764,6 +787,7 @@ mod verif_c16_msr {
     //@ obligation C16 C16.UCet_update.read_f_write
     #[kani::proof]
     fn c16_ucet_update_read_f_write() {
+        verif_hw::reset_symbolic();
         let before = watch(IA32_U_CET);
         let old = before.msr_value;
         kani::assume(canonical(old & !0xfff));
@@ -804,6 +828,7 @@ mod verif_c16_msr {
     //@ obligation C16 C16.SCet_read.decodes_register
     #[kani::proof]
     fn c16_scet_read_decodes_register() {
+        verif_hw::reset_symbolic();
         let before = watch(IA32_S_CET);
         let old = before.msr_value;
         kani::assume(canonical(old & !0xfff));
@@ -827,6 +852,7 @@ mod verif_c16_msr {
     //@ obligation C16 C16.SCet_write.read_back
     #[kani::proof]
     fn c16_scet_write_read_back() {
+        verif_hw::reset_symbolic();
         let before = watch(IA32_S_CET);
         let flags = CetFlags::from_bits_retain(kani::any::<u64>() & CET_MODELLED);
         let (page, page_addr) = any_page();
@@ -854,6 +880,7 @@ mod verif_c16_msr {
     //@ obligation C16 C16.SCet_update.read_f_write
     #[kani::proof]
     fn c16_scet_update_read_f_write() {
+        verif_hw::reset_symbolic();
         let before = watch(IA32_S_CET);
         let old = before.msr_value;
         kani::assume(canonical(old & !0xfff));
@@ -946,6 +973,7 @@ mod verif_c16_msr {
     #[kani::proof]
     #[kani::unwind(9)]
     fn c16_pat_read_decodes_entries() {
+        verif_hw::reset_symbolic();
         let before = watch(IA32_PAT);
         let old = before.msr_value;
         kani::assume(pat_raw_valid(old));
@@ -966,6 +994,7 @@ mod verif_c16_msr {
     #[kani::proof]
     #[kani::unwind(9)]
     fn c16_pat_write_read_back() {
+        verif_hw::reset_symbolic();
         let before = watch(IA32_PAT);
         let table = [
             any_pat(), any_pat(), any_pat(), any_pat(), any_pat(), any_pat(), any_pat(), any_pat(),
@@ -994,6 +1023,7 @@ mod verif_c16_msr {
     //@ obligation C16 C16.ApicBase_read_raw.frame_and_raw
     #[kani::proof]
     fn c16_apicbase_read_decodes_register() {
+        verif_hw::reset_symbolic();
         let before = watch(IA32_APIC_BASE);
         let old = before.msr_value;
         kani::cover!(true, "c16_apicbase_read_decodes_register: reachable");
@@ -1028,6 +1058,7 @@ mod verif_c16_msr {
     //@ obligation C16 C16.ApicBase_write_raw.stores_exactly
     #[kani::proof]
     fn c16_apicbase_write_raw_stores_exactly() {
+        verif_hw::reset_symbolic();
         let before = watch(IA32_APIC_BASE);
         let (frame, addr) = any_frame();
         let flags: u64 = kani::any();
@@ -1053,6 +1084,7 @@ mod verif_c16_msr {
     //@ obligation C16 C16.ApicBase_write.stores_base_and_flags
     #[kani::proof]
     fn c16_apicbase_write_stores_base_and_flags() {
+        verif_hw::reset_symbolic();
         let before = watch(IA32_APIC_BASE);
         let old = before.msr_value;
         let (frame, addr) = any_frame();
@@ -1081,6 +1113,7 @@ mod verif_c16_msr {
     //@ obligation C16 C16.ApicBase_write.flags_and_reserved
     #[kani::proof]
     fn c16_apicbase_write_flags_and_reserved() {
+        verif_hw::reset_symbolic();
         let before = watch(IA32_APIC_BASE);
         let old = before.msr_value;
         let (frame, addr) = any_frame();
